@@ -120,11 +120,11 @@ DP17Shape(p, c) ==
 (* string: the PRF input grows by a byte when a keyword's counter passes 256 and 65536.  MaxCounter is the largest      *)
 (* counter a profile uses (entries for PiBas, blocks for PiPack, pointer blocks for PiPtr); CounterBytes its length.    *)
 CounterBytes(x) == IF x = 0 THEN 0 ELSE IF x < 256 THEN 1 ELSE IF x < 65536 THEN 2 ELSE 3
-MaxOf(q) == IF q = <<>> THEN 0 ELSE LET m == CHOOSE i \in 1..Len(q) : \A j \in 1..Len(q) : q[i] >= q[j] IN q[m]
+LongestList(q) == IF q = <<>> THEN 0 ELSE LET m == CHOOSE i \in 1..Len(q) : \A j \in 1..Len(q) : q[i] >= q[j] IN q[m]
 MaxCounter(s, p, c) ==
-    CASE s = "CJJ14.PiBas"  -> MaxOf(p) - 1
-      [] s = "CJJ14.PiPack" -> CeilDiv(MaxOf(p), c.B) - 1
-      [] s = "CJJ14.PiPtr"  -> CeilDiv(CeilDiv(MaxOf(p), c.B), c.b) - 1
+    CASE s = "CJJ14.PiBas"  -> LongestList(p) - 1
+      [] s = "CJJ14.PiPack" -> CeilDiv(LongestList(p), c.B) - 1
+      [] s = "CJJ14.PiPtr"  -> CeilDiv(CeilDiv(LongestList(p), c.B), c.b) - 1
       [] OTHER -> 0
 
 (* ------------------------------ dispatch ------------------------------ *)
